@@ -47,8 +47,21 @@ func importOnce(s *linker.Symbols, un *universe, form, id string) error {
 		_, err := linkOnce(s, un, id, nil)
 		return err
 	}
-	return s.Import(un.fd(form, id), reporter.NewHandler(nil))
+	base, tolerant := strings.CutSuffix(form, tolSuffix)
+	if !tolerant {
+		return s.Import(un.fd(base, id), reporter.NewHandler(nil))
+	}
+	// a collecting reporter: every error is accepted (the handler returns nil to the caller, who carries
+	// on) and the operation as a whole has failed iff the handler holds an error at the end
+	h := reporter.NewHandler(reporter.NewReporter(func(reporter.ErrorWithPos) error { return nil }, nil))
+	if err := s.Import(un.fd(base, id), h); err != nil {
+		return err
+	}
+	return h.Error()
 }
+
+// tolSuffix marks a form replayed with the tolerant (collecting) reporter
+const tolSuffix = "~tolerant"
 
 // linkOnce is the other way a file gets into a shared table: linker.Link of the parsed file against the
 // table (what protocompile.Compiler does with Compiler.Symbols).  Every call parses afresh, so the
@@ -140,6 +153,9 @@ func runHist(un *universe, in *bufio.Scanner, out io.Writer, forms []string) (in
 			report := func(cls string, i int, detail string) {
 				if form == "link" {
 					cls = "link:" + cls
+				}
+				if strings.HasSuffix(form, tolSuffix) {
+					cls += ":tolerant-reporter"
 				}
 				_ = enc.Encode(disagreement{Class: cls,
 					Case:   map[string]any{"imports": ids, "step": i, "form": form},
